@@ -22,10 +22,86 @@ SPECIAL_REG = {101: "east", 102: "west", 103: "Zone B", 104: "zone-\u00e9\u00fc"
 SPECIAL_REG_N = {v: k for k, v in SPECIAL_REG.items()}
 
 
+# ---- the region NAME alphabet (round 3).  The model compares region names as opaque tokens (numbers, exact equality), and so do
+# the monitors; the implementation gets real strings.  The table below gives numbers >= DYN0 to strings that an implementation
+# could be tempted to treat as special or as equal although they are different strings:
+#   bases    every string-valued setting of the settings package (reported by the executor from the running program, so whatever
+#            constant the tree under test defines is in), the literal unknown-region / default-region names, wildcard-looking
+#            names, plain and non-ASCII names;
+#   variants of each base: lower / upper / capitalised / swapped case, surrounding blanks (space, tab, NBSP, zero-width space,
+#            NUL), proper prefixes and extensions, Unicode normalisation forms (NFD / NFC / NFKC partners: combining marks,
+#            full-width letters), letters that only fold together (Kelvin sign / k, long s / s).
+# A "class" = a base with its variants: pairwise different strings.
+DYN0 = 1000
+DYN_NUM2STR, DYN_STR2NUM = {}, {}
+REG_CLASSES = []        # list of (base string, [numbers of the members, base first])
+LITERAL_BASES = ["UNKNOWN", "default-region", "east", "r1", "zone-\u00e9\u00fc", "Stra\u00dfe", "kiosk-7", "*", "any", "default", "none", "null",
+                 "\u6771\u4eac/1", " "]
+
+
+def reg_num(name):
+    """the number of a region name (allocated on first use)"""
+    if name == "":
+        return 0
+    if name in SPECIAL_REG_N:
+        return SPECIAL_REG_N[name]
+    if name.startswith("r") and name[1:].isdigit() and not name[1:].startswith("0") and int(name[1:]) < 100 and name[1:].isascii():
+        return int(name[1:])
+    if name not in DYN_STR2NUM:
+        k = DYN0 + len(DYN_NUM2STR)
+        DYN_STR2NUM[name] = k
+        DYN_NUM2STR[k] = name
+    return DYN_STR2NUM[name]
+
+
+def name_variants(b):
+    import unicodedata
+    fullwidth = "".join(chr(ord(ch) + 0xFEE0) if 0x21 <= ord(ch) <= 0x7E else ch for ch in b)
+    onlyfold = b.replace("k", "\u212a").replace("K", "\u212a").replace("s", "\u017f")
+    vs = [b.lower(), b.upper(), b.capitalize(), b.swapcase(), b.title(),
+          " " + b, b + " ", b + "\t", "\u00a0" + b, b + "\u200b", b + "\x00", b + "\n",
+          b[:-1], b[:max(1, len(b) // 2)], b + "x", b + b, b + "-1",
+          unicodedata.normalize("NFD", b), unicodedata.normalize("NFC", b), unicodedata.normalize("NFKC", b),
+          unicodedata.normalize("NFD", b.upper()), fullwidth, onlyfold, b.casefold()]
+    out = []
+    for v in vs:
+        if v != "" and v != b and v not in out:
+            out.append(v)
+    return out
+
+
+def build_reg_table(consts):
+    """deterministic for a given list of setting strings"""
+    del REG_CLASSES[:]
+    bases = []
+    for b in sorted(set(x for x in consts if isinstance(x, str) and 0 < len(x) <= 64)) + LITERAL_BASES:
+        if b not in bases:
+            bases.append(b)
+    for b in bases:
+        REG_CLASSES.append((b, [reg_num(b)] + [reg_num(v) for v in name_variants(b)]))
+
+
 def s_reg(k):
+    if k in DYN_NUM2STR:
+        return DYN_NUM2STR[k]
     if k in SPECIAL_REG:
         return SPECIAL_REG[k]
     return "" if k == 0 else "r%d" % k
+
+
+def case_regnums(c):
+    ks = set(r for (a, r, t, ss) in c["hosts"])
+    if c["regions"] is not None:
+        ks |= set(c["regions"][0])
+    return ks
+
+
+def rename_regions(c, ren):
+    """the case with region numbers replaced (injectively) according to the dict [ren]"""
+    c["hosts"] = [(a, ren.get(r, r), t, ss) for (a, r, t, ss) in c["hosts"]]
+    if c["regions"] is not None:
+        c["regions"] = ([ren.get(x, x) for x in c["regions"][0]], c["regions"][1])
+    return c
 
 
 def s_app(k): return "" if k == 0 else "app%d" % k
@@ -52,6 +128,9 @@ def norm_case(c):
     c["regions"] = None if c["regions"] is None else (list(c["regions"][0]), list(c["regions"][1]))
     c["plogs"] = {int(k): [tuple(p) for p in v] for k, v in (c.get("plogs") or {}).items()}
     c.setdefault("ramped", False)
+    # region numbers >= DYN0 are table entries of the run that wrote the file: go by the names stored with the case
+    names = c.pop("regnames", None) or {}
+    rename_regions(c, {int(k): reg_num(v) for k, v in names.items()})
     return c
 
 
@@ -195,7 +274,7 @@ def must_refuse(c, ttl):
             return "counts add up to %d, shard %d has %d members" % (sum(counts), sid, len(ms))
         for reg, cnt in zip(names, counts):
             if n_suitable(c, ttl, sid, reg) < cnt:
-                return "shard %d: region %s has %d suitable hosts, %d wanted" % (sid, s_reg(reg), n_suitable(c, ttl, sid, reg), cnt)
+                return "shard %d: region %r has %d suitable hosts (exact name), %d wanted" % (sid, s_reg(reg), n_suitable(c, ttl, sid, reg), cnt)
     return None
 
 
@@ -261,10 +340,11 @@ def monitors(c, ttl, o, ramped):
             for reg, cnt in zip(names, counts):
                 k = sum(1 for x in rafts if hosts[x][1] == reg)
                 if k != cnt and names.count(reg) == 1:
-                    bad.append(("valid:quota", "shard %d: %d members in region %s, quota %d" % (sid, k, s_reg(reg), cnt)))
+                    bad.append(("valid:quota", "shard %d: %d members on NodeHosts reporting region %r, quota %d (placed on %s)" % (
+                        sid, k, s_reg(reg), cnt, [(x, s_reg(hosts[x][1])) for x in rafts])))
             for x in rafts:
                 if hosts[x][1] not in names:
-                    bad.append(("valid:quota", "shard %d: member on %s in region %s which is not in the specification" % (sid, x, s_reg(hosts[x][1]))))
+                    bad.append(("valid:quota", "shard %d: member on %s in region %r which is not in the specification" % (sid, x, s_reg(hosts[x][1]))))
         for q in blk:
             if q["join"] is not False or q["restore"] is not False:
                 h = hosts.get(q["raft"])
@@ -443,6 +523,92 @@ def gen_directed(ck, ttl):
     return cases
 
 
+def gen_names(ck, ttl):
+    """H: the region NAME dimension.  For every class of the name table (a base name and its spelling variants) and pairs (v1, v2)
+    of different members of the class, launches whose verdict or quotas hinge on v1 and v2 being different regions:
+      short      v1 wanted, one suitable host too few reports exactly v1, plenty report v2 / the other variants / other regions  -> refuse
+      exact      just enough hosts report v1, others report the variants                                              -> plan, quota per exact name
+      absent     no host reports v1, plenty report v2                                                               -> refuse
+      pair fit   v1 and v2 both in the specification, enough hosts each                                            -> plan, quotas per exact name
+      pair 2nd/1st short   both in the specification, one of them a host short, the other with spares               -> refuse
+      pair shared pool     both in the specification, hosts only under one of the two names, enough for the sum   -> refuse
+      two shards  the second shard is short in v1 only because v1 hosts already host it
+    Names are used both in the specification and in what the NodeHosts report."""
+    rng = ck.rng
+    quick = ck.tier == "quick"
+    live = T0 - ttl + 1
+    cases = []
+    others_all = [1, 2, 3] + [ms[0] for (_, ms) in REG_CLASSES]
+
+    def mk(kinds, shards, rg, label):
+        hosts = mk_fleet(kinds, rng)
+        c = {"tick": T0, "hosts": hosts, "plogs": mk_plogs(hosts, shards, rng, p=0.1), "shards": shards, "regions": rg, "origin": "H:" + label}
+        cases.append(add_draws(c, rng, short_p=0.0))
+
+    def H(r, k, ss=()):
+        return [(r, live, ss)] * k
+
+    for (base, members) in REG_CLASSES:
+        b = members[0]
+        pairs = [(b, v) for v in members[1:]] + [(v, b) for v in members[1:]]
+        extra = [tuple(rng.sample(members, 2)) for _ in range(6 if quick else 40)] if len(members) > 2 else []
+        for (v1, v2) in pairs + extra:
+            rest = [m for m in members if m not in (v1, v2)]
+            o1, o2 = rng.sample([x for x in others_all if x not in members], 2)
+            sid = rng.choice([1, 7, 100001])
+            for (c1, c2) in ([(1, 1), (2, 1)] if quick else [(1, 1), (2, 1), (1, 2), (3, 2)]):
+                d = rng.randrange(0, 3)
+                others = H(o1, d + 2) + H(o2, 2) + [(v1, T0 - ttl, ())] + [(v1, live, (sid,))]
+                variants = [k for m in (rng.sample(rest, min(len(rest), 3))) for k in H(m, c1)]
+                one = [(sid, 1, rng.sample(range(1, 12), c1 + d))]
+                spec1 = ([v1, o1], [c1, d]) if rng.random() < 0.5 else ([o1, v1], [d, c1])
+                if quick and rng.random() < 0.5:
+                    mk(H(v1, c1 - 1) + H(v2, c1 + 1) + variants + others, one, spec1, "short")
+                else:
+                    mk(H(v1, c1 - 1) + H(v2, c1 + 1) + others, one, spec1, "short")
+                mk(H(v1, c1) + H(v2, c1) + variants + others, one, spec1, "exact")
+                mk(H(v2, c1 + 1) + variants + others[:d + 4], one, spec1, "absent")
+                two = [(sid, 1, rng.sample(range(1, 12), c1 + c2 + d))]
+                order = rng.randrange(3)
+                spec2 = [([v1, v2, o1], [c1, c2, d]), ([o1, v1, v2], [d, c1, c2]), ([v1, o1, v2], [c1, d, c2])][order]
+                a, bb = rng.randrange(0, 2), rng.randrange(0, 2)
+                mk(H(v1, c1 + a) + H(v2, c2 + bb) + others, two, spec2, "pair fit")
+                mk(H(v1, c1 + c2) + H(v2, c2 - 1) + others, two, spec2, "pair 2nd short")
+                mk(H(v1, c1 - 1) + H(v2, c1 + c2) + others, two, spec2, "pair 1st short")
+                mk(H(v1, c1 + c2 + 1) + others, two, spec2, "pair shared pool")
+                if not quick or rng.random() < 0.5:
+                    sid2 = sid + 1
+                    shards = [(sid, 1, two[0][2]), (sid2, 1, [m + 20 for m in two[0][2]])]
+                    if rng.random() < 0.5:
+                        shards.reverse()
+                    mk(H(v1, c1 - 1) + H(v1, 1, (sid2,)) + H(v2, c2 + c1) + H(o1, d + 1) + H(o2, 1), shards, spec2, "two shards")
+    return cases
+
+
+def sprinkle_names(cases, rng, p):
+    """a share p of the given cases gets its region numbers replaced, injectively, by names of the table (so the specification
+    kinds and fleets of the systematic phases also run over special names and over names of one class); the empty name stays"""
+    for c in cases:
+        if rng.random() >= p or not REG_CLASSES:
+            continue
+        ks = sorted(k for k in case_regnums(c) if k != 0)
+        if not ks:
+            continue
+        pool = []
+        if rng.random() < 0.6:
+            pool += list(rng.choice(REG_CLASSES)[1])            # names of one class
+            rng.shuffle(pool)
+            pool = pool[:len(ks)]
+        while len(pool) < len(ks):
+            x = rng.choice(rng.choice(REG_CLASSES)[1])
+            if x not in pool:
+                pool.append(x)
+        rng.shuffle(pool)
+        rename_regions(c, dict(zip(ks, pool)))
+        c["origin"] = c["origin"].replace(":", "n:", 1) if ":" in c["origin"] else c["origin"] + "n"
+    return cases
+
+
 def gen_systematic(ck, ttl):
     rng = ck.rng
     cases = []
@@ -594,8 +760,9 @@ def replay_obj(c, ttl, o, kind):
             "case": {"tick": c["tick"], "hosts": [list(h) for h in c["hosts"]], "shards": [list(s) for s in c["shards"]],
                      "regions": None if c["regions"] is None else [c["regions"][0], c["regions"][1]], "draws": c["draws"],
                      "plogs": {str(k): [list(x) for x in v] for k, v in (c.get("plogs") or {}).items()},
-                     "ramped": c.get("ramped", False)},
-            "encoding": "hosts: [address k = 'a<k>', region k = 'r<k>' (0 = ''), last tick, hosted shard ids]; shards: [id, app k = 'app<k>', members]; regions: [names, counts] or null; plogs: address k -> [[shard, replica]] persistent-log records; region numbers 101.. are the names of SPECIAL_REG in harness/py/c08.py",
+                     "ramped": c.get("ramped", False),
+                     "regnames": {str(k): s_reg(k) for k in sorted(case_regnums(c)) if k >= DYN0}},
+            "encoding": "hosts: [address k = 'a<k>', region k = 'r<k>' (0 = ''), last tick, hosted shard ids]; shards: [id, app k = 'app<k>', members]; regions: [names, counts] or null; plogs: address k -> [[shard, replica]] persistent-log records; region numbers 101..108 are the names of SPECIAL_REG in harness/py/c08.py, numbers >= 1000 the names given under regnames",
             "origin": c.get("origin"), "go_input_line": go_line(c)[:3000], "observed": json.dumps(o)[:3000]}
 
 
@@ -613,6 +780,14 @@ def run(ck):
         "are cut short). E: large fleets (65..130 suitable hosts in one region plus unsuitable ones interleaved, counts 2..5, scripts that repeat "
         "candidate indexes around 63/64/65, 127/128 and the last one). F: 40..600 shards with shard and member ids >= 100000, >= 2^32, >= 2^63. "
         "G: region names that are not in byte order, with blanks, upper case, non-ASCII, the reserved name UNKNOWN, unequal counts. "
+        "H: the region NAME alphabet: a table of name classes = a base name (every string-valued setting of the settings package as read "
+        "from the running executor, the literal unknown-region and default-region names, wildcard-looking names, ASCII and non-ASCII names) "
+        "with its spelling variants (lower/upper/capitalised/swapped case, surrounding blank / tab / NBSP / zero-width space / NUL / newline, "
+        "proper prefixes and extensions, NFD/NFC/NFKC partners, full-width letters, letters equal only under case folding); for every class "
+        "and pairs (v1, v2) of its members, in the specification and in what NodeHosts report: v1 one host short while v2 / other "
+        "variants / other regions have spares (must refuse), exactly enough, absent, both names in the specification (fit; first or "
+        "second a host short; hosts only under one name), two shards where v1 is short only for the second. 30% of the cases of A-D and "
+        "R additionally have their region names replaced injectively by names of the table (60% of these: by members of one class). "
         "Hosts of every phase may report leftover persistent-log records (for every member of a defined shard, one member, a non-member, "
         "another shard id); launch must ignore them. In every case the real server.validateRegions is called on the pb.Regions message "
         "before the launch and the same message object is the launch specification (verdict and unchanged message are monitored, the plan "
@@ -640,7 +815,10 @@ def run(ck):
             ck.violation("launch executor failed to run", {"kind": "executor", "rc": rc, "log_tail": out[-3000:]}, found_input=False)
             return None, None
         lines = open(fo).read().splitlines()
-        ttl = json.loads(lines[0])["ttl"]
+        hdr = json.loads(lines[0])
+        ttl = hdr["ttl"]
+        if tag == "probe":
+            ck.cov["setting_strings_read_from_code"] = hdr.get("consts", [])
         res = [json.loads(l) for l in lines[1:]]
         if len(res) != len(cases) or any(r["o"] == "badinput" for r in res):
             ck.violation("launch executor answered %d of %d cases" % (len(res), len(cases)), {"kind": "executor", "log_tail": out[-2000:]}, found_input=False)
@@ -651,6 +829,8 @@ def run(ck):
     if ttl is None:
         return
     ck.cov["nodeHostTTL_read_from_code"] = ttl
+    build_reg_table(ck.cov.get("setting_strings_read_from_code") or [])
+    ck.cov["region_name_table"] = {"classes": len(REG_CLASSES), "names": len(DYN_NUM2STR)}
     if ck.replay:
         r = json.load(open(ck.replay))
         c = norm_case(r["case"])
@@ -660,8 +840,9 @@ def run(ck):
         cases = load_corpus()
         ck.cov["corpus_cases"] = len(cases)
         cases += gen_directed(ck, ttl)
-        cases += gen_systematic(ck, ttl)
-        cases += gen_random(ck, ttl, 10000 if ck.tier == "quick" else 300000)
+        cases += gen_names(ck, ttl)
+        cases += sprinkle_names(gen_systematic(ck, ttl), ck.rng, 0.3)
+        cases += sprinkle_names(gen_random(ck, ttl, 10000 if ck.tier == "quick" else 300000), ck.rng, 0.3)
     t0 = time.time()
     _, res = run_go(cases, "main")
     tm["go_run"] = round(time.time() - t0, 1)
